@@ -78,11 +78,10 @@ def _sqlite_remainder_expr(dbmodel, expression):
     # SQLite's % casts to integer and takes the sign of the dividend: use the floored form (numpy.mod)
     e0 = dbmodel.expr_to_sql(expression.args[0], want_inline_parens=True)
     e1 = dbmodel.expr_to_sql(expression.args[1], want_inline_parens=True)
-    # integers stay exact (a double holds only 53 bits; the divisor is added only to a remainder of the other sign,
-    # which can not leave the 64 bit range); everything else goes through the floored form
+    # integers stay exact (a double holds only 53 bits); everything else goes through the floored form
     return (
         f"(CASE WHEN (typeof({e0}) = 'integer') AND (typeof({e1}) = 'integer')"
-        f" THEN (({e0} % {e1}) + (CASE WHEN (({e0} % {e1}) != 0) AND (({e0} < 0) != ({e1} < 0)) THEN {e1} ELSE 0 END))"
+        f" THEN ((({e0} % {e1}) + {e1}) % {e1})"
         f" ELSE ({e0} - FLOOR({e0} / (1.0 * {e1})) * {e1}) END)"
     )
 
